@@ -149,7 +149,9 @@ func TestWriterFaults(t *testing.T) {
 		hx.Class(fmt.Sprintf("writer/ctor=%s/noflush=%v/ext=%v", c.Ctor, c.NoFlush, c.Ext))
 		n := 0
 		for k := 0; k < total; k++ {
-			shorts := []int{0}
+			// the failing call accepts 0, 1, half, all but one or ALL of its bytes and reports the error (a full
+			// count together with an error is legal for an io.Writer: tee, logging and deadline wrappers do it)
+			shorts := []int{0, len(clean.Calls[k])}
 			if l := len(clean.Calls[k]); l > 1 {
 				shorts = append(shorts, 1, l/2, l-1)
 			}
